@@ -33,7 +33,7 @@ func init() {
 		Variant{Prop: "C12", Name: "notify-without-lock", File: hs, Expect: "C12.c",
 			Old: "func (hs *heightSub) Notify(heights ...uint64) {\n\ths.heightSubsLk.Lock()\n\tdefer hs.heightSubsLk.Unlock()\n", New: "func (hs *heightSub) Notify(heights ...uint64) {\n"},
 		Variant{Prop: "C12", Name: "notify-before-append", File: st, Expect: "C12.d",
-			Old: "\t\ts.pending.Append(headers...)\n\t\t// always inform heightSub about new headers seen.\n\t\ts.heightSub.Notify(getHeights(headers...)...)", New: "\t\ts.heightSub.Notify(getHeights(headers...)...)\n\t\ts.pending.Append(headers...)"},
+			Old: "\t\ts.pending.Append(headers...)\n\t\t// initialize the Store from the batch if needed; this publishes its height,\n\t\t// so it must come after the headers are accessible\n\t\ts.ensureInit(headers)\n\t\t// always inform heightSub about new headers seen.\n\t\ts.heightSub.Notify(getHeights(headers...)...)", New: "\t\ts.heightSub.Notify(getHeights(headers...)...)\n\t\ts.pending.Append(headers...)\n\t\ts.ensureInit(headers)"},
 		Variant{Prop: "C12", Name: "notify-only-when-flushing", File: st, Expect: "C12.d",
 			Old: "\t\t// always inform heightSub about new headers seen.\n\t\ts.heightSub.Notify(getHeights(headers...)...)", New: "\t\tif s.pending.Len() >= s.Params.WriteBatchSize {\n\t\t\ts.heightSub.Notify(getHeights(headers...)...)\n\t\t}"},
 		// benign
